@@ -90,3 +90,52 @@ def muxer_entries(fx):
         elif ss == "TrackConfig" and ts.startswith("From<"):
             out.append(f["id"])
     return sorted(out)
+
+
+_sub_cache = {}
+
+
+def compose(fx, chk, tier, tag, pid, rules, keyfilter=None, floor=None, what=None):
+    """re-evaluate rule instances owned by pack `pid` and report them under rule `tag` of the composing check.
+    Instances that are listed known findings of the owning property are not instances of the composition."""
+    import importlib
+    import json
+    import os
+    import report
+    ck = (id(fx), pid, tier)
+    if ck not in _sub_cache:
+        sub = report.Check(pid)
+        sub.finish = lambda *a, **k: 0
+        importlib.import_module(pid.lower()).run(fx, sub, tier)
+        _sub_cache[ck] = sub
+    sub = _sub_cache[ck]
+    known = set()
+    kf = os.path.join(os.path.dirname(os.path.dirname(os.path.dirname(os.path.abspath(__file__)))), "known_findings.jsonl")
+    if os.path.exists(kf):
+        for line in open(kf):
+            line = line.strip()
+            if line:
+                e = json.loads(line)
+                if e.get("property") == pid and e.get("status", "known") == "known":
+                    known.add(e["key"])
+                    if e.get("ckey"):
+                        known.add(e["ckey"])
+    n = 0
+    for o in sub.obligations:
+        base = o["rule"].split(".floor")[0].split(".anchor")[0]
+        if not any(base == r or base.startswith(r + ".") for r in rules):
+            continue
+        if keyfilter and not keyfilter(o):
+            continue
+        full = "%s|%s" % (o["rule"], o["key"])
+        if not o["ok"] and (full in known or o["key"] in known or (o.get("detail") or {}).get("ckey") in known):
+            continue
+        n += 1
+        key = "%s:%s|%s" % (pid, o["rule"], o["key"])
+        if o["ok"]:
+            chk.ok(tag, key, o["how"], o["site"])
+        else:
+            chk.bad(tag, key, o["how"], o["site"], o.get("detail"))
+    if floor is not None:
+        chk.floor(tag, what or ("instances of %s %s" % (pid, "/".join(rules))), n, floor)
+    return n
